@@ -46,7 +46,7 @@ for (name,f,old,new,checks,control) in m.M:
         rows.append((name,"BUILD-FAILED",err[-300:].replace("\n"," "),control)); open(path,"w").write(src); continue
     for c in checks:
         t=time.time()
-        r=subprocess.run([S+"/target/release/dst","check",c,"--tier","quick"],cwd=S+"/verif",capture_output=True,text=True,env=dict(os.environ,DST_RUNS=os.environ.get("MUT_RUNS","20000")))
+        r=subprocess.run([S+"/target/release/dst","check",c,"--tier","quick"],cwd=S+"/verif",capture_output=True,text=True,env=dict(os.environ,DST_RUNS=os.environ.get("MUT_RUNS","20000"),DST_NO_DEFAULT_FEATURES_STAGE="1"))
         rules=sorted(set(l.split("rule=")[1].split(" ")[0] for l in r.stdout.splitlines() if l.strip().startswith("rule=")))
         res[c]=(r.returncode, rules, round(time.time()-t,1))
     open(path,"w").write(src)
